@@ -133,16 +133,78 @@ theorem parse_write_member (ns : Str) (names : List (Option Str)) (m : Member) (
 
 /-! ### the list level -/
 
-/-- the pairing of the UNCHANGED reader when every member element is a `<field>` -/
-theorem lengthPass_forall2 (names : List (Option Str)) (R : Member → Xml → Prop) (h1 h2 : Member → Member)
-    (l : List Member) (xs : List Xml) (hf : Forall2 R l xs)
-    (hk : ∀ a x, a ∈ l → R a x → lengthUpd names x (h1 a) = .ok (h2 a)) :
-    lengthPass names xs (l.map h1) = .ok (l.map h2) := by
+/-- an anonymous struct / union member has no type: nothing for the length pass to resolve -/
+theorem canonMember0_of_not_field (m : Member) (h : ¬ isFieldElem m = true) : canonMember0 m = canonMember m := by
+  rcases m with ⟨name, body, _, _, _, _, _, _, _, _, _, _⟩
+  cases body with
+  | anon tag => rfl
+  | callback cb => exact absurd rfl h
+  | typed t => exact absurd rfl h
+
+/-- the length pass over the written member elements, paired one to one with the members read from them -/
+theorem lengthPass_written (ns : Str) (names : List (Option Str)) (l : List Member) (ys : List Xml)
+    (hf : Forall2 (fun m x => writeMember ns names m = .ok x) l ys) (hl : ∀ m ∈ l, wfMember ns m = true) :
+    lengthPass names ys (l.map canonMember0) = .ok (l.map canonMember) := by
   induction hf with
   | nil => rfl
-  | @cons a x as xs' hr _ ih =>
-    simp only [List.map_cons, lengthPass, hk a x (by simp) hr]
-    rw [ih (fun a' x' ha' => hk a' x' (by simp [ha']))]
+  | @cons a x as ys' hr _ ih =>
+    obtain ⟨_, htag, _, hlen⟩ := parse_write_member ns names a x hr (hl a (by simp))
+    have hstep : (if x.tag = "field" then lengthUpd names x (canonMember0 a) else .ok (canonMember0 a))
+        = .ok (canonMember a) := by
+      by_cases hf' : isFieldElem a = true
+      · rw [if_pos (by rw [htag]; exact hf'), hlen hf']
+      · rw [if_neg (by rw [htag]; exact hf'), canonMember0_of_not_field a hf']
+    simp only [List.map_cons, lengthPass, hstep]
+    rw [ih (fun m hm => hl m (by simp [hm]))]
+
+/-! ### writing the canonical members gives the same elements -/
+
+theorem write_canon_asCallback (ns : Str) (cb : Callable) :
+    writeCallable ns (asCallback (canonCallable (asCallback cb))) = writeCallable ns (asCallback cb) := by
+  rw [← write_canonCallable ns (asCallback cb)]
+  have hext : extraAttrs (asCallback (canonCallable (asCallback cb))) = extraAttrs (canonCallable (asCallback cb)) := by
+    simp only [extraAttrs, asCallback, canonCallable]
+    by_cases h : cb.ctype = some cb.name <;> simp [h]
+  unfold writeCallable
+  rw [hext]
+  rfl
+
+theorem genericAttrs_canon (m : Member) (h : isFieldElem m = true) : genericAttrs (canonMember m) = genericAttrs m := by
+  rcases m with ⟨name, body, readable, writable, bits, priv, version, skip, intro, depr, stab, docs⟩
+  have hb : ∀ (s i : Bool), (false || !(i && !s)) = (s || !i) := by intro s i; cases s <;> cases i <;> rfl
+  cases body with
+  | anon tag => simp [isFieldElem] at h
+  | callback cb => simp only [genericAttrs, canonMember, keepTruthy_idem, truthy_keepTruthy, canonDocs, hb]
+  | typed t => simp only [genericAttrs, canonMember, keepTruthy_idem, truthy_keepTruthy, canonDocs, hb]
+
+theorem write_canonMember (ns : Str) (names : List (Option Str)) (m : Member) :
+    writeMember ns names (canonMember m) = writeMember ns names m := by
+  by_cases hf : isFieldElem m = true
+  · have hg := genericAttrs_canon m hf
+    rcases m with ⟨name, body, readable, writable, bits, priv, version, skip, intro, depr, stab, docs⟩
+    cases body with
+    | anon tag => simp [isFieldElem] at hf
+    | callback cb =>
+      unfold writeMember
+      simp only [canonMember] at hg ⊢
+      rw [hg, write_canonDocs, write_canon_asCallback]
+    | typed t =>
+      unfold writeMember
+      simp only [canonMember] at hg ⊢
+      rw [hg, write_canonDocs, write_canonTy, keepTruthy_idem]
+  · rcases m with ⟨name, body, _, _, _, _, _, _, _, _, _, _⟩
+    cases body with
+    | anon tag => rfl
+    | callback cb => exact absurd rfl hf
+    | typed t => exact absurd rfl hf
+
+theorem write_canonMembers (ns : Str) (ms : List Member) :
+    writeMembers ns (ms.map canonMember) = writeMembers ns ms := by
+  unfold writeMembers
+  have hn : memberNames (ms.map canonMember) = memberNames ms := by
+    simp [memberNames, canonMember_name, Function.comp_def]
+  rw [hn, mapMExcept_map]
+  simp only [write_canonMember]
 
 theorem filter_append3 (p : Xml → Bool) (pre xs post : List Xml) (hpre : ∀ x ∈ pre, p x = false)
     (hxs : ∀ x ∈ xs, p x = true) (hpost : ∀ x ∈ post, p x = false) :
